@@ -50,6 +50,10 @@ def run(ctx):
     concatenation(ctx)
     ctx.rule("R17.5", "the d attribute kept in values is parsed once: the copy that `+` works on does not parse it again")
     parse_once(ctx)
+    ctx.rule("R17.6", "the junction of a concatenation links by copies of the end points (obligations shared with C18 R18.1)")
+    from . import c18
+
+    c18.linked_points_are_copies(ctx, "R17.6")
 
 
 def parse_once(ctx):
